@@ -6,7 +6,7 @@ Anchors are found by role (which attribute is popped from / appended to next to 
 import ast
 from typing import Dict, List, Optional, Set, Tuple
 
-from .core import AnalysisError, Loc, Report, norm
+from .core import tolerant, IdiomNotRecognised, AnalysisError, Loc, Report, norm
 from .normalize import canon
 from .pyfront import ClassInfo, Program, body_without_docstring, self_attr
 
@@ -18,6 +18,7 @@ def _calls(node: ast.AST, attr: str) -> List[ast.Call]:
             and n.func.attr == attr]
 
 
+@tolerant("R9.3-activator-roles")
 def check(prog: Program, rep: Report) -> None:
     check_tagger_switch(prog, rep)
     cls = prog.class_named("TagActivator")
@@ -78,7 +79,7 @@ def check(prog: Program, rep: Report) -> None:
             rep.ob("R9.3-exhaustion-raises", guarded, loc, f"{fn.name}: pool exhaustion",
                    "an empty not-running pool must raise (a swallowed IndexError would silently drop a factor)")
     if len(pools) != 1:
-        raise AnalysisError(f"TagActivator: handler pools not identified uniquely: {pools}")
+        raise IdiomNotRecognised(f"TagActivator: handler pools not identified uniquely: {pools}")
     not_running, running = next(iter(pools))
     # -- trash function: reads running[t], moves it to not_running[t], clears running[t] -----------------------------------
     def writes_running(fn: ast.AST) -> bool:
@@ -91,7 +92,7 @@ def check(prog: Program, rep: Report) -> None:
         if len(returning) == 1:
             trashers = returning
     if len(trashers) != 1:
-        raise AnalysisError("TagActivator: trash routine not identified")
+        raise IdiomNotRecognised("TagActivator: trash routine not identified")
     tf = trashers[0]
     loops = [n for n in body_without_docstring(tf) if isinstance(n, ast.For)]
     loc = Loc(FILE, tf.lineno, f"TagActivator.{tf.name}")
